@@ -58,58 +58,42 @@ theorem idKey_mono (o : Nat) (s : KSt) (h : Inv s) : Inv (idKey o s).2 ∧ Le s 
       · rw [e, hl] at hi; cases hi
       · simp [e, hi]
 
-theorem floatKey_mono (f : Flt) (s : KSt) (h : Inv s) : Inv (floatKey f s).2 ∧ Le s (floatKey f s).2 := by
+theorem floatKey_mono (fs : Int → Str) (f : Flt) (s : KSt) (h : Inv s) : Inv (floatKey fs f s).2 ∧ Le s (floatKey fs f s).2 := by
   cases f <;> simp only [floatKey]
   · exact ⟨⟨fun o i hi => Nat.le_succ_of_le (h.1 o i hi), h.2⟩, Nat.le_succ _, fun _ _ hh => hh⟩
   all_goals exact ⟨h, Le.refl s⟩
 
 mutual
-theorem keyFor_mono (reg : Nat → Str) : ∀ (v : KVal) (s : KSt), Inv s → Inv (keyFor reg v s).2 ∧ Le s (keyFor reg v s).2
+theorem keyFor_mono (fs : Int → Str) : ∀ (v : KVal) (s : KSt), Inv s → Inv (keyFor fs v s).2 ∧ Le s (keyFor fs v s).2
   | .bool _, s, h => by simp only [keyFor]; exact ⟨h, Le.refl s⟩
   | .int _, s, h => by simp only [keyFor]; exact ⟨h, Le.refl s⟩
   | .i64 _ _, s, h => by simp only [keyFor]; exact ⟨h, Le.refl s⟩
-  | .float f, s, h => by simp only [keyFor]; exact floatKey_mono f s h
-  | .complex _ _, s, h => by simp only [keyFor]; exact ⟨h, Le.refl s⟩
+  | .float f, s, h => by simp only [keyFor]; exact floatKey_mono fs f s h
+  | .complex re im, s, h => by
+    simp only [keyFor]
+    have h1 := floatKey_mono fs re s h
+    have h2 := floatKey_mono fs im _ h1.1
+    exact ⟨h2.1, Le.trans h1.2 h2.2⟩
   | .str _, s, h => by simp only [keyFor]; exact ⟨h, Le.refl s⟩
   | .ref o, s, h => by simp only [keyFor]; exact idKey_mono o s h
   | .ifaceNil, s, h => by simp only [keyFor]; exact ⟨h, Le.refl s⟩
-  | .iface _ v, s, h => by simp only [keyFor]; exact keyFor_mono reg v s h
-  | .tuple a es, s, h => by simp only [keyFor]; exact keysFor_mono reg a es s h
-theorem keysFor_mono (reg : Nat → Str) (a : Bool) : ∀ (es : KVals) (s : KSt), Inv s →
-    Inv (keysFor reg a es s).2 ∧ Le s (keysFor reg a es s).2
+  | .iface _ v, s, h => by simp only [keyFor]; exact keyFor_mono fs v s h
+  | .tuple _ es, s, h => by simp only [keyFor]; exact keysFor_mono fs es s h
+theorem keysFor_mono (fs : Int → Str) : ∀ (es : KVals) (s : KSt), Inv s →
+    Inv (keysFor fs es s).2 ∧ Le s (keysFor fs es s).2
   | .nil, s, h => by simp only [keysFor]; exact ⟨h, Le.refl s⟩
   | .cons x t, s, h => by
     simp only [keysFor]
-    have h1 := keyFor_mono reg x s h
-    have h2 := keysFor_mono reg a t _ h1.1
+    have h1 := keyFor_mono fs x s h
+    have h2 := keysFor_mono fs t _ h1.1
     exact ⟨h2.1, Le.trans h1.2 h2.2⟩
 end
 
-/-! ### hypotheses of the partial theorem -/
-
-/-- dynamic type strings contain no `$` and identify the type -/
-def RegOK (reg : Nat → Str) : Prop := (∀ i, 36 ∉ reg i) ∧ ∀ i j, reg i = reg j → i = j
+/-! ### typing of pairs -/
 
 def notNaN : Flt → Bool
   | .nan => false
   | _ => true
-
-/-- the element of a `[n]float` array is not NaN -/
-def arrElemOK : Bool → KVal → Bool
-  | true, .float .nan => false
-  | _, _ => true
-
-mutual
-/-- no complex number with a NaN component and no float array with a NaN element, at any depth -/
-def good : KVal → Bool
-  | .complex re im => notNaN re && notNaN im
-  | .iface _ v => good v
-  | .tuple isArr es => goods isArr es
-  | _ => true
-def goods (isArr : Bool) : KVals → Bool
-  | .nil => true
-  | .cons h t => arrElemOK isArr h && good h && goods isArr t
-end
 
 /-- `a` and `b` are values of one static type -/
 def ST (shape : Nat → KType) (a b : KVal) : Prop := ∃ τ, wt shape τ a = true ∧ wt shape τ b = true
@@ -151,32 +135,25 @@ theorem STs_length (shape : Nat → KType) : ∀ (as bs : KVals), STs shape as b
 /-! ### the string form of a key and of the components of a composite key -/
 
 /-- `String(keyFor(v))` -/
-def kstr (reg : Nat → Str) (v : KVal) (s : KSt) : Str := (keyFor reg v s).1.toStr
+def kstr (fs : Int → Str) (v : KVal) (s : KSt) : Str := (keyFor fs v s).1.toStr
 
 /-- unescaped component keys, with the state threaded exactly as `keysFor` does -/
-def rawKeys (reg : Nat → Str) : KVals → KSt → List Str
+def rawKeys (fs : Int → Str) : KVals → KSt → List Str
   | .nil, _ => []
-  | .cons h t, s => kstr reg h s :: rawKeys reg t (keyFor reg h s).2
+  | .cons h t, s => kstr fs h s :: rawKeys fs t (keyFor fs h s).2
 
-theorem rawKeys_length (reg : Nat → Str) : ∀ (es : KVals) (s : KSt), (rawKeys reg es s).length = es.length
+theorem rawKeys_length (fs : Int → Str) : ∀ (es : KVals) (s : KSt), (rawKeys fs es s).length = es.length
   | .nil, _ => rfl
-  | .cons _ t, s => by simp [rawKeys, KVals.length, rawKeys_length reg t]
+  | .cons _ t, s => by simp [rawKeys, KVals.length, rawKeys_length fs t]
 
-theorem coerce_ok (isArr : Bool) (h : KVal) (x : Str) (hk : arrElemOK isArr h = true) : typedArrayCoerce isArr h x = x := by
-  unfold typedArrayCoerce
-  split
-  · simp [arrElemOK] at hk
-  · rfl
-
-theorem keysFor_raw (reg : Nat → Str) (isArr : Bool) : ∀ (es : KVals) (s : KSt), goods isArr es = true →
-    (keysFor reg isArr es s).1 = (rawKeys reg es s).map esc
-  | .nil, _, _ => rfl
-  | .cons h t, s, hg => by
-    simp only [goods, Bool.and_eq_true] at hg
+theorem keysFor_raw (fs : Int → Str) : ∀ (es : KVals) (s : KSt),
+    (keysFor fs es s).1 = (rawKeys fs es s).map esc
+  | .nil, _ => rfl
+  | .cons h t, s => by
     simp only [keysFor, rawKeys, List.map, kstr]
-    rw [coerce_ok _ _ _ hg.1.1, keysFor_raw reg isArr t _ hg.2]
+    rw [keysFor_raw fs t _]
 
-theorem floatKey_notNaN (f : Flt) (s : KSt) (h : notNaN f = true) : floatKey f s = (numStr f, s) := by
+theorem floatKey_notNaN (fs : Int → Str) (f : Flt) (s : KSt) (h : notNaN f = true) : floatKey fs f s = (numStr fs f, s) := by
   cases f <;> simp [floatKey, notNaN] at h ⊢
 
 theorem notNaN_ne (f : Flt) (h : notNaN f = true) : f ≠ .nan := by
@@ -189,26 +166,86 @@ theorem sNil_no_dollar : 36 ∉ sNil := by decide
 
 theorem toStr_str (s : Str) : (JKey.str s).toStr = s := rfl
 
+/-- `$floatKey`: two evaluations, the second in a later state, give the same key exactly when Go's `==` holds
+    (a NaN gets a fresh number each time) -/
+theorem floatKey_inj {fs : Int → Str} (hfs : ToStringOK fs) (f g : Flt) (s1 s2 : KSt) (wf : fwt f = true) (wg : fwt g = true)
+    (hle : (floatKey fs f s1).2.ctr ≤ s2.ctr) : (floatKey fs f s1).1 = (floatKey fs g s2).1 ↔ fltEq f g = true := by
+  by_cases nf : notNaN f = true <;> by_cases ng : notNaN g = true
+  · rw [floatKey_notNaN fs f s1 nf, floatKey_notNaN fs g s2 ng]
+    exact numStr_injective hfs f g (notNaN_ne f nf) (notNaN_ne g ng) wf wg
+  · have eg : g = .nan := by cases g <;> simp [notNaN] at ng ⊢
+    subst eg
+    rw [floatKey_notNaN fs f s1 nf]
+    simp only [floatKey]
+    constructor
+    · intro h
+      exact absurd (h ▸ mem_append_dollar _ _) (numStr_chars hfs f (notNaN_ne f nf) wf)
+    · intro h; cases f <;> simp [fltEq] at h
+  · have ef : f = .nan := by cases f <;> simp [notNaN] at nf ⊢
+    subst ef
+    rw [floatKey_notNaN fs g s2 ng]
+    simp only [floatKey]
+    constructor
+    · intro h
+      exact absurd (h ▸ mem_append_dollar _ _) (numStr_chars hfs g (notNaN_ne g ng) wg)
+    · intro h; simp [fltEq] at h
+  · have ef : f = .nan := by cases f <;> simp [notNaN] at nf ⊢
+    have eg : g = .nan := by cases g <;> simp [notNaN] at ng ⊢
+    subst ef; subst eg
+    simp only [floatKey] at hle ⊢
+    constructor
+    · intro h
+      have := decNat_injective _ _ (List.cons.inj (List.append_cancel_left h)).2
+      omega
+    · intro h; simp [fltEq] at h
+
+/-- a `$floatKey` result is self-delimiting in front of a `$`: either it has no `$`, or it is `NaN$<digits>` -/
+theorem floatKey_split {fs : Int → Str} (hfs : ToStringOK fs) (f g : Flt) (s1 s2 : KSt) (wf : fwt f = true) (wg : fwt g = true)
+    (x y : Str) (h : (floatKey fs f s1).1 ++ 36 :: x = (floatKey fs g s2).1 ++ 36 :: y) :
+    (floatKey fs f s1).1 = (floatKey fs g s2).1 ∧ x = y := by
+  by_cases nf : notNaN f = true <;> by_cases ng : notNaN g = true
+  · rw [floatKey_notNaN fs f s1 nf, floatKey_notNaN fs g s2 ng] at h ⊢
+    exact split_at_dollar _ _ _ _ (numStr_chars hfs f (notNaN_ne f nf) wf) (numStr_chars hfs g (notNaN_ne g ng) wg) h
+  · have eg : g = .nan := by cases g <;> simp [notNaN] at ng ⊢
+    subst eg
+    rw [floatKey_notNaN fs f s1 nf] at h
+    simp only [floatKey, List.append_assoc, List.cons_append] at h
+    have := split_at_dollar _ _ _ _ (numStr_chars hfs f (notNaN_ne f nf) wf) sNaN_no_dollar h
+    exact absurd this.1 (numStr_ne_NaN hfs f (notNaN_ne f nf) wf)
+  · have ef : f = .nan := by cases f <;> simp [notNaN] at nf ⊢
+    subst ef
+    rw [floatKey_notNaN fs g s2 ng] at h
+    simp only [floatKey, List.append_assoc, List.cons_append] at h
+    have := split_at_dollar _ _ _ _ sNaN_no_dollar (numStr_chars hfs g (notNaN_ne g ng) wg) h
+    exact absurd this.1.symm (numStr_ne_NaN hfs g (notNaN_ne g ng) wg)
+  · have ef : f = .nan := by cases f <;> simp [notNaN] at nf ⊢
+    have eg : g = .nan := by cases g <;> simp [notNaN] at ng ⊢
+    subst ef; subst eg
+    simp only [floatKey, List.append_assoc, List.cons_append] at h ⊢
+    have h' := (List.cons.inj (List.append_cancel_left h)).2
+    have := split_at_dollar _ _ _ _ (no_dollar_decNat _) (no_dollar_decNat _) h'
+    exact ⟨by rw [this.1], this.2⟩
+
 /-! ### the induction -/
 
 mutual
-theorem inj_val (reg : Nat → Str) (hreg : RegOK reg) (shape : Nat → KType) :
-    ∀ (a b : KVal) (s1 s2 : KSt), ST shape a b → good a = true → good b = true → Inv s1 → Inv s2 →
-      Le (keyFor reg a s1).2 s2 → (kstr reg a s1 = kstr reg b s2 ↔ goEq a b = true)
-  | .bool x, b, s1, s2, hst, ga, gb, i1, i2, hle => by
+theorem inj_val {fs : Int → Str} (hfs : ToStringOK fs) (shape : Nat → KType) :
+    ∀ (a b : KVal) (s1 s2 : KSt), ST shape a b → Inv s1 → Inv s2 →
+      Le (keyFor fs a s1).2 s2 → (kstr fs a s1 = kstr fs b s2 ↔ goEq a b = true)
+  | .bool x, b, s1, s2, hst, i1, i2, hle => by
     obtain ⟨τ, ha, hb⟩ := hst
     cases τ <;> simp [wt] at ha
     cases b <;> simp [wt] at hb
     rename_i y
     cases x <;> cases y <;> simp [kstr, keyFor, JKey.toStr, goEq, sTrue, sFalse]
-  | .int x, b, s1, s2, hst, ga, gb, i1, i2, hle => by
+  | .int x, b, s1, s2, hst, i1, i2, hle => by
     obtain ⟨τ, ha, hb⟩ := hst
     cases τ <;> simp [wt] at ha
     cases b <;> simp [wt] at hb
     rename_i y
     simp only [kstr, keyFor, JKey.toStr, goEq, beq_iff_eq]
     exact ⟨decInt_injective x y, fun h => by rw [h]⟩
-  | .i64 h1 l1, b, s1, s2, hst, ga, gb, i1, i2, hle => by
+  | .i64 h1 l1, b, s1, s2, hst, i1, i2, hle => by
     obtain ⟨τ, ha, hb⟩ := hst
     cases τ <;> simp [wt] at ha
     cases b <;> simp [wt] at hb
@@ -219,67 +256,40 @@ theorem inj_val (reg : Nat → Str) (hreg : RegOK reg) (shape : Nat → KType) :
       have := split_at_dollar _ _ _ _ (no_dollar_decInt h1) (no_dollar_decInt h2) h
       exact ⟨decInt_injective _ _ this.1, decNat_injective _ _ this.2⟩
     · rintro ⟨e1, e2⟩; rw [e1, e2]
-  | .float f, b, s1, s2, hst, ga, gb, i1, i2, hle => by
+  | .float f, b, s1, s2, hst, i1, i2, hle => by
     obtain ⟨τ, ha, hb⟩ := hst
     cases τ <;> simp [wt] at ha
     cases b <;> simp [wt] at hb
     rename_i g
     simp only [kstr, keyFor, JKey.toStr, goEq]
     simp only [keyFor] at hle
-    by_cases nf : notNaN f = true <;> by_cases ng : notNaN g = true
-    · rw [floatKey_notNaN f s1 nf, floatKey_notNaN g s2 ng]
-      exact numStr_injective f g (notNaN_ne f nf) (notNaN_ne g ng) ha hb
-    · have eg : g = .nan := by cases g <;> simp [notNaN] at ng ⊢
-      subst eg
-      rw [floatKey_notNaN f s1 nf]
-      simp only [floatKey]
-      constructor
-      · intro h
-        exact absurd (h ▸ mem_append_dollar _ _) (numStr_chars f (notNaN_ne f nf))
-      · intro h; cases f <;> simp [fltEq] at h
-    · have ef : f = .nan := by cases f <;> simp [notNaN] at nf ⊢
-      subst ef
-      rw [floatKey_notNaN g s2 ng]
-      simp only [floatKey]
-      constructor
-      · intro h
-        exact absurd (h ▸ mem_append_dollar _ _) (numStr_chars g (notNaN_ne g ng))
-      · intro h; simp [fltEq] at h
-    · have ef : f = .nan := by cases f <;> simp [notNaN] at nf ⊢
-      have eg : g = .nan := by cases g <;> simp [notNaN] at ng ⊢
-      subst ef; subst eg
-      simp only [floatKey] at hle ⊢
-      constructor
-      · intro h
-        have := decNat_injective _ _ (List.cons.inj (List.append_cancel_left h)).2
-        have := hle.1
-        simp at this
-        omega
-      · intro h; simp [fltEq] at h
-  | .complex r1 i1, b, s1, s2, hst, ga, gb, iv1, iv2, hle => by
+    exact floatKey_inj hfs f g s1 s2 ha hb hle.1
+  | .complex r1 m1, b, s1, s2, hst, i1, i2, hle => by
     obtain ⟨τ, ha, hb⟩ := hst
     cases τ <;> simp [wt] at ha
     cases b <;> simp [wt] at hb
-    rename_i r2 i2
-    simp only [good, Bool.and_eq_true] at ga gb
+    rename_i r2 m2
     simp only [kstr, keyFor, JKey.toStr, goEq, Bool.and_eq_true]
-    have n1 := notNaN_ne _ ga.1
-    have n2 := notNaN_ne _ ga.2
-    have n3 := notNaN_ne _ gb.1
-    have n4 := notNaN_ne _ gb.2
+    simp only [keyFor] at hle
+    -- states: r1 at s1, m1 after it; r2 at s2, m2 after it; everything on the left is before everything on the right
+    have ma := floatKey_mono fs r1 s1 i1
+    have mb := floatKey_mono fs m1 _ ma.1
+    have mc := floatKey_mono fs r2 s2 i2
+    have hre := floatKey_inj hfs r1 r2 s1 s2 ha.1 hb.1 (Nat.le_trans mb.2.1 hle.1)
+    have him := floatKey_inj hfs m1 m2 (floatKey fs r1 s1).2 (floatKey fs r2 s2).2 ha.2 hb.2 (Nat.le_trans hle.1 mc.2.1)
     constructor
     · intro h
-      have := split_at_dollar _ _ _ _ (numStr_chars r1 n1) (numStr_chars r2 n3) h
-      exact ⟨(numStr_injective r1 r2 n1 n3 ha.1 hb.1).mp this.1, (numStr_injective i1 i2 n2 n4 ha.2 hb.2).mp this.2⟩
+      have sp := floatKey_split hfs r1 r2 s1 s2 ha.1 hb.1 _ _ h
+      exact ⟨hre.mp sp.1, him.mp sp.2⟩
     · rintro ⟨e1, e2⟩
-      rw [(numStr_injective r1 r2 n1 n3 ha.1 hb.1).mpr e1, (numStr_injective i1 i2 n2 n4 ha.2 hb.2).mpr e2]
-  | .str x, b, s1, s2, hst, ga, gb, i1, i2, hle => by
+      rw [hre.mpr e1, him.mpr e2]
+  | .str x, b, s1, s2, hst, i1, i2, hle => by
     obtain ⟨τ, ha, hb⟩ := hst
     cases τ <;> simp [wt] at ha
     cases b <;> simp [wt] at hb
     rename_i y
     simp [kstr, keyFor, JKey.toStr, goEq]
-  | .ref o1, b, s1, s2, hst, ga, gb, i1, i2, hle => by
+  | .ref o1, b, s1, s2, hst, i1, i2, hle => by
     obtain ⟨τ, ha, hb⟩ := hst
     cases τ <;> simp [wt] at ha
     cases b <;> simp [wt] at hb
@@ -311,7 +321,7 @@ theorem inj_val (reg : Nat → Str) (hreg : RegOK reg) (shape : Nat → KType) :
         have := i2.1 o1 n l2
         omega
       · intro h; subst h; rw [l2] at hl; cases hl
-  | .ifaceNil, b, s1, s2, hst, ga, gb, i1, i2, hle => by
+  | .ifaceNil, b, s1, s2, hst, i1, i2, hle => by
     obtain ⟨τ, ha, hb⟩ := hst
     cases τ <;> simp [wt] at ha
     cases b <;> simp [wt] at hb
@@ -320,7 +330,7 @@ theorem inj_val (reg : Nat → Str) (hreg : RegOK reg) (shape : Nat → KType) :
       constructor
       · intro h; exact absurd (h ▸ mem_append_dollar _ _) sNil_no_dollar
       · intro h; cases h
-  | .iface t1 v1, b, s1, s2, hst, ga, gb, i1, i2, hle => by
+  | .iface t1 v1, b, s1, s2, hst, i1, i2, hle => by
     obtain ⟨τ, ha, hb⟩ := hst
     cases τ <;> simp [wt] at ha
     cases b <;> simp [wt] at hb
@@ -329,69 +339,66 @@ theorem inj_val (reg : Nat → Str) (hreg : RegOK reg) (shape : Nat → KType) :
       · intro h; exact absurd (h.symm ▸ mem_append_dollar _ _) sNil_no_dollar
       · intro h; cases h
     · rename_i t2 v2
-      simp only [good] at ga gb
       simp only [keyFor] at hle
       simp only [kstr, keyFor, toStr_str, goEq, Bool.and_eq_true, beq_iff_eq]
       constructor
       · intro h
-        have sp := split_at_dollar _ _ _ _ (hreg.1 t1) (hreg.1 t2) h
-        have et := hreg.2 _ _ sp.1
+        have sp := split_at_dollar _ _ _ _ (no_dollar_decNat t1) (no_dollar_decNat t2) h
+        have et := decNat_injective _ _ sp.1
         subst et
-        exact ⟨rfl, (inj_val reg hreg shape v1 v2 s1 s2 ⟨_, ha, hb⟩ ga gb i1 i2 hle).mp sp.2⟩
+        exact ⟨rfl, (inj_val hfs shape v1 v2 s1 s2 ⟨_, ha, hb⟩ i1 i2 hle).mp sp.2⟩
       · rintro ⟨et, hv⟩
         subst et
-        have := (inj_val reg hreg shape v1 v2 s1 s2 ⟨_, ha, hb⟩ ga gb i1 i2 hle).mpr hv
+        have := (inj_val hfs shape v1 v2 s1 s2 ⟨_, ha, hb⟩ i1 i2 hle).mpr hv
         simp only [kstr] at this
         rw [this]
-  | .tuple ia e1, b, s1, s2, hst, ga, gb, i1, i2, hle => by
+  | .tuple ia e1, b, s1, s2, hst, i1, i2, hle => by
     obtain ⟨τ, ha, hb⟩ := hst
-    have hs : ∃ ib e2, b = .tuple ib e2 ∧ STs shape e1 e2 ∧ ib = ia := by
+    have hs : ∃ ib e2, b = .tuple ib e2 ∧ STs shape e1 e2 := by
       cases τ <;> cases ia <;> simp [wt] at ha
       · cases b <;> try simp [wt] at hb
         rename_i len elem ib e2
         cases ib <;> simp [wt] at hb
-        exact ⟨_, _, rfl, wtAll_STs shape _ e1 e2 ha.1 hb.1 (by rw [ha.2, hb.2]), rfl⟩
+        exact ⟨_, _, rfl, wtAll_STs shape _ e1 e2 ha.1 hb.1 (by rw [ha.2, hb.2])⟩
       · cases b <;> try simp [wt] at hb
-        rename_i fs ib e2
+        rename_i fs' ib e2
         cases ib <;> simp [wt] at hb
-        exact ⟨_, _, rfl, wtEach_STs shape _ e1 e2 ha hb, rfl⟩
-    obtain ⟨ib, e2, rfl, hsts, rfl⟩ := hs
-    simp only [good] at ga gb
+        exact ⟨_, _, rfl, wtEach_STs shape _ e1 e2 ha hb⟩
+    obtain ⟨ib, e2, rfl, hsts⟩ := hs
     simp only [keyFor] at hle
     simp only [kstr, keyFor, JKey.toStr, goEq]
-    rw [keysFor_raw reg ib e1 s1 ga, keysFor_raw reg ib e2 s2 gb]
-    have ih := inj_vals reg hreg shape e1 e2 ib s1 s2 hsts ga gb i1 i2 hle
+    rw [keysFor_raw fs e1 s1, keysFor_raw fs e2 s2]
+    have ih := inj_vals hfs shape e1 e2 s1 s2 hsts i1 i2 hle
     constructor
     · intro h
       apply ih.mp
       apply join_esc_injective _ _ _ h
       rw [rawKeys_length, rawKeys_length, STs_length shape e1 e2 hsts]
     · intro h; rw [ih.mpr h]
-theorem inj_vals (reg : Nat → Str) (hreg : RegOK reg) (shape : Nat → KType) :
-    ∀ (as bs : KVals) (isArr : Bool) (s1 s2 : KSt), STs shape as bs → goods isArr as = true → goods isArr bs = true →
-      Inv s1 → Inv s2 → Le (keysFor reg isArr as s1).2 s2 → (rawKeys reg as s1 = rawKeys reg bs s2 ↔ goEqs as bs = true)
-  | .nil, .nil, _, _, _, _, _, _, _, _, _ => by simp [rawKeys, goEqs]
-  | .nil, .cons _ _, _, _, _, h, _, _, _, _, _ => by simp [STs] at h
-  | .cons _ _, .nil, _, _, _, h, _, _, _, _, _ => by simp [STs] at h
-  | .cons a as, .cons b bs, isArr, s1, s2, hst, ga, gb, i1, i2, hle => by
+theorem inj_vals {fs : Int → Str} (hfs : ToStringOK fs) (shape : Nat → KType) :
+    ∀ (as bs : KVals) (s1 s2 : KSt), STs shape as bs →
+      Inv s1 → Inv s2 → Le (keysFor fs as s1).2 s2 → (rawKeys fs as s1 = rawKeys fs bs s2 ↔ goEqs as bs = true)
+  | .nil, .nil, _, _, _, _, _, _ => by simp [rawKeys, goEqs]
+  | .nil, .cons _ _, _, _, h, _, _, _ => by simp [STs] at h
+  | .cons _ _, .nil, _, _, h, _, _, _ => by simp [STs] at h
+  | .cons a as, .cons b bs, s1, s2, hst, i1, i2, hle => by
     simp only [STs] at hst
-    simp only [goods, Bool.and_eq_true] at ga gb
     simp only [keysFor] at hle
-    have m1 := keyFor_mono reg a s1 i1
-    have m1' := keysFor_mono reg isArr as _ m1.1
-    have m2 := keyFor_mono reg b s2 i2
-    have hhead := inj_val reg hreg shape a b s1 s2 hst.1 ga.1.2 gb.1.2 i1 i2 (Le.trans m1'.2 hle)
-    have htail := inj_vals reg hreg shape as bs isArr _ _ hst.2 ga.2 gb.2 m1.1 m2.1 (Le.trans hle m2.2)
+    have m1 := keyFor_mono fs a s1 i1
+    have m1' := keysFor_mono fs as _ m1.1
+    have m2 := keyFor_mono fs b s2 i2
+    have hhead := inj_val hfs shape a b s1 s2 hst.1 i1 i2 (Le.trans m1'.2 hle)
+    have htail := inj_vals hfs shape as bs _ _ hst.2 m1.1 m2.1 (Le.trans hle m2.2)
     simp only [rawKeys, goEqs, List.cons.injEq, Bool.and_eq_true]
     rw [hhead, htail]
 end
 
-theorem key_sort (reg : Nat → Str) (shape : Nat → KType) (τ : KType) (v : KVal) (s : KSt) (h : wt shape τ v = true) :
+theorem key_sort (reg : Int → Str) (shape : Nat → KType) (τ : KType) (v : KVal) (s : KSt) (h : wt shape τ v = true) :
     (τ = .bool ∧ ∃ x, v = .bool x) ∨ (τ = .int ∧ ∃ n, v = .int n) ∨
     (τ ≠ .bool ∧ τ ≠ .int ∧ ∃ x, (keyFor reg v s).1 = .str x) := by
   cases τ <;> cases v <;> (try simp [wt] at h) <;> (try simp [keyFor])
 
-theorem jkey_eq_iff_kstr (reg : Nat → Str) (shape : Nat → KType) (a b : KVal) (s1 s2 : KSt) (hst : ST shape a b) :
+theorem jkey_eq_iff_kstr (reg : Int → Str) (shape : Nat → KType) (a b : KVal) (s1 s2 : KSt) (hst : ST shape a b) :
     (keyFor reg a s1).1 = (keyFor reg b s2).1 ↔ kstr reg a s1 = kstr reg b s2 := by
   obtain ⟨τ, ha, hb⟩ := hst
   rcases key_sort reg shape τ a s1 ha with ⟨e, x, rfl⟩ | ⟨e, x, rfl⟩ | ⟨n1, n2, x, ex⟩
@@ -409,11 +416,11 @@ theorem jkey_eq_iff_kstr (reg : Nat → Str) (shape : Nat → KType) (a b : KVal
     · exact absurd e' n2
     · simp only [kstr, ex, ey, JKey.toStr, JKey.str.injEq]
 
-theorem key_inj (reg : Nat → Str) (hreg : RegOK reg) (shape : Nat → KType) (τ : KType) (a b : KVal)
-    (s1 s2 : KSt) (ha : wt shape τ a = true) (hb : wt shape τ b = true) (ga : good a = true) (gb : good b = true)
-    (i1 : Inv s1) (i2 : Inv s2) (hle : Le (keyFor reg a s1).2 s2) :
-    (keyFor reg a s1).1 = (keyFor reg b s2).1 ↔ goEq a b = true := by
-  rw [jkey_eq_iff_kstr reg shape a b s1 s2 ⟨τ, ha, hb⟩]
-  exact inj_val reg hreg shape a b s1 s2 ⟨τ, ha, hb⟩ ga gb i1 i2 hle
+theorem key_inj {fs : Int → Str} (hfs : ToStringOK fs) (shape : Nat → KType) (τ : KType) (a b : KVal)
+    (s1 s2 : KSt) (ha : wt shape τ a = true) (hb : wt shape τ b = true)
+    (i1 : Inv s1) (i2 : Inv s2) (hle : Le (keyFor fs a s1).2 s2) :
+    (keyFor fs a s1).1 = (keyFor fs b s2).1 ↔ goEq a b = true := by
+  rw [jkey_eq_iff_kstr fs shape a b s1 s2 ⟨τ, ha, hb⟩]
+  exact inj_val hfs shape a b s1 s2 ⟨τ, ha, hb⟩ i1 i2 hle
 
 end GV.Proofs.MapKeyInj
